@@ -255,6 +255,7 @@ def run_genseq(cid, rng, workdir, res):
     # a macro taken from a molecule definition in a file (-from_file tag:molecule -f file): its residue graph
     file_macros = {}
     kw_file = {}
+    pairs_in_file_macro = False
     if rng.random() < 0.4:
         tag = "F"
         k_ = rng.randint(1, 6)
@@ -276,6 +277,15 @@ def run_genseq(cid, rng, workdir, res):
         for a_, b_ in redges:
             bonds_.append("%d %d 1 0.35 1000" % (firsts[a_] + rng.randrange(1), firsts[b_]))
         L += ["[ bonds ]"] + bonds_
+        nonadj = [(a_, b_) for a_ in range(k_) for b_ in range(a_ + 1, k_) if (a_, b_) not in redges and (b_, a_) not in redges]
+        if nonadj and rng.random() < 0.25:
+            # a 1-4 pair / an exclusion between two residues that are not bonded: no edge of the residue graph
+            a_, b_ = rng.choice(nonadj)
+            L += [rng.choice(["[ pairs ]", "[ exclusions ]"]), "%d %d%s" % (firsts[a_], firsts[b_], " 1" if L[-1] == "" else "")]
+            if L[-2] == "[ pairs ]":
+                L[-1] += " 1"
+            pairs_in_file_macro = True
+            bump(res, "file_macros_with_pairs_or_exclusions_between_unbonded_residues")
         (Path(workdir) / "frag.itp").write_text("\n".join(L) + "\n")
         file_macros[tag] = (rnames, redges)
         kw_file = {"from_file": ["%s:FRG" % tag], "inpath": [Path(workdir) / "frag.itp"]}
@@ -377,5 +387,13 @@ def run_genseq(cid, rng, workdir, res):
     w["json"] = json.dumps(data)[:1500]
     m = MetaMolecule.from_sequence_file(None, out, "t")
     bump(res, "json_round_trips")
+    if pairs_in_file_macro and any(t in file_macros for t in seqtags):
+        # judged on the edges alone: which residues count as chain ends (terminal names) follows from them
+        _gn, _gr, ge_, _gl = graph_of(m)
+        if ge_ != edges:
+            bump(res, "graphs_compared")
+            violation(res, "edges-wrong:gen_seq:file-macro-with-pairs-or-exclusions", "edges differ: missing %s unexpected %s" %
+                      (sorted(map(sorted, edges - ge_))[:4], sorted(map(sorted, ge_ - edges))[:4]), w)
+            return res
     compare(res, m, names, edges, {}, "gen_seq", w, node_labels=node_labels)
     return res
